@@ -9,6 +9,11 @@ use std::collections::{BTreeMap, BTreeSet};
 use stellar_access::access_control::{self as ac, AccessControl};
 use stellar_macros::{has_any_role, has_role, only_admin, only_any_role, only_role};
 
+mod nft_ex {
+    #[path = "/repo/examples/nft-access-control/src/contract.rs"]
+    pub mod c;
+}
+
 #[contract]
 pub struct Acl;
 #[contractimpl]
@@ -62,6 +67,9 @@ pub enum Step {
 #[derive(Clone, Debug, Serialize, Deserialize)]
 pub struct Cfg {
     pub actors: usize,
+    /// run against examples/nft-access-control (from source) instead of the wrapper
+    #[serde(default)]
+    pub example: bool,
 }
 #[derive(Clone, Debug, Default)]
 struct Model {
@@ -74,6 +82,9 @@ impl Model {
         self.admin == Some(caller) || self.role_admin.get(&role).map(|ar| self.members.contains(&(caller, *ar))).unwrap_or(false)
     }
     fn apply(&mut self, s: &Step) -> bool {
+        self.apply_for(s, false)
+    }
+    fn apply_for(&mut self, s: &Step, example: bool) -> bool {
         match *s {
             Step::Grant { account, role, caller, signer } => {
                 if signer != Some(caller) || !self.may_manage(caller, role) {
@@ -117,7 +128,8 @@ impl Model {
                     Guarded::Role => m(0) && signer == Some(caller),
                     Guarded::HasRole => m(0),
                     Guarded::Any => (m(0) || m(1)) && signer == Some(caller),
-                    Guarded::HasAny => m(0) || m(1),
+                    // examples/nft-access-control: `multi_role_action` is #[has_any_role] and calls caller.require_auth() itself
+                    Guarded::HasAny => (m(0) || m(1)) && (!example || signer == Some(caller)),
                 }
             }
         }
@@ -140,7 +152,7 @@ impl Check for Access {
         }
     }
     fn components(&self) -> serde_json::Value {
-        serde_json::json!({"real": ["stellar_access::access_control::* (trait defaults)", "stellar_macros::{only_admin, only_role, has_role, only_any_role, has_any_role}"], "stub": ["Wallet"]})
+        serde_json::json!({"real": ["examples/nft-access-control (from source; 35 % of the runs)", "stellar_access::access_control::* (trait defaults)", "stellar_macros::{only_admin, only_role, has_role, only_any_role, has_any_role}"], "stub": ["Wallet"]})
     }
     fn dup_ok(&self, _s: &Step) -> bool {
         true
@@ -149,7 +161,7 @@ impl Check for Access {
         true
     }
     fn generate(&self, rng: &mut Rng, tier: Tier) -> (Cfg, std::vec::Vec<Step>) {
-        let cfg = Cfg { actors: 4 + rng.below(3) as usize };
+        let cfg = Cfg { actors: 4 + rng.below(3) as usize, example: rng.chance(35) };
         let n = cfg.actors as u64;
         let nsteps = if tier == Tier::Quick { 30 + rng.below(50) } else { 30 + rng.below(100) } as usize;
         let mut m = Model { admin: Some(0), ..Default::default() };
@@ -193,13 +205,14 @@ impl Check for Access {
                     Step::RenounceAdmin { signer: sign(rng, who) }
                 }
                 _ => {
-                    let which = *rng.pick(&[Guarded::Admin, Guarded::Role, Guarded::HasRole, Guarded::Any, Guarded::HasAny]);
+                    // the example has no function guarded by a bare #[has_role] that can be called in isolation
+                    let which = if cfg.example { *rng.pick(&[Guarded::Admin, Guarded::Role, Guarded::Any, Guarded::HasAny]) } else { *rng.pick(&[Guarded::Admin, Guarded::Role, Guarded::HasRole, Guarded::Any, Guarded::HasAny]) };
                     let caller = any(rng);
                     let who = if which == Guarded::Admin { m.admin.unwrap_or(caller) } else { caller };
                     Step::Call { which, caller, signer: sign(rng, who) }
                 }
             };
-            m.apply(&s);
+            m.apply_for(&s, cfg.example);
             steps.push(s);
         }
         (cfg, steps)
@@ -208,15 +221,30 @@ impl Check for Access {
         let w = W::new(cfg.actors, 100, 16);
         let e = &w.e;
         let a = |i: usize| w.actors[i].clone();
-        let id = e.register(Acl, (a(0),));
-        let c = AclClient::new(e, &id);
+        let id = if cfg.example {
+            e.register(nft_ex::c::ExampleContract, (soroban_sdk::String::from_str(e, "u"), soroban_sdk::String::from_str(e, "n"), soroban_sdk::String::from_str(e, "s"), a(0)))
+        } else {
+            e.register(Acl, (a(0),))
+        };
+        let c = AclClient::new(e, &id); // the AccessControl entry points and getters have the same names in both contracts
         let role = |r: usize| Symbol::new(e, ROLES[r]);
         let mut m = Model { admin: Some(0), ..Default::default() };
+        let call = |f: &str, args: Vec<soroban_sdk::Val>| -> bool { e.try_invoke_contract::<soroban_sdk::Val, soroban_sdk::Error>(&id, &Symbol::new(e, f), args).map(|r| r.is_ok()).unwrap_or(false) };
         for (i, s) in steps.iter().enumerate() {
             let one = |who: Option<usize>, f: &'static str, args: Vec<soroban_sdk::Val>| match who {
                 Some(x) => w.set_auth(&[(x, Inv::new(&id, f, args))]),
                 None => w.set_auth(&[]),
             };
+            match s {
+                Step::Grant { caller, signer, .. } | Step::Revoke { caller, signer, .. } | Step::Renounce { caller, signer, .. } | Step::Call { caller, signer, which: Guarded::Role | Guarded::Any | Guarded::HasAny | Guarded::HasRole } => {
+                    if signer.is_none() {
+                        st.hit("fault.auth_missing");
+                    } else if *signer != Some(*caller) {
+                        st.hit("fault.auth_foreign");
+                    }
+                }
+                _ => {}
+            }
             let before = w.storage_digest(&[&id]);
             let (kind, got) = match s {
                 Step::Grant { account, role: r, caller, signer } => {
@@ -239,6 +267,26 @@ impl Check for Access {
                     one(*signer, "renounce_admin", ().into_val(e));
                     ("renounce_admin", c.try_renounce_admin().is_ok())
                 }
+                Step::Call { which, caller, signer } if cfg.example => match which {
+                    Guarded::Admin => {
+                        one(*signer, "admin_restricted_function", ().into_val(e));
+                        ("admin_fn", call("admin_restricted_function", ().into_val(e)))
+                    }
+                    Guarded::Role | Guarded::HasRole => {
+                        // mint(to, token_id, caller) is #[only_role(caller, "minter")]; a fresh token id per step
+                        let tid = 1_000 + i as u32;
+                        one(*signer, "mint", (a(*caller), tid, a(*caller)).into_val(e));
+                        ("role_fn", call("mint", (a(*caller), tid, a(*caller)).into_val(e)))
+                    }
+                    Guarded::Any => {
+                        one(*signer, "multi_role_auth_action", (a(*caller),).into_val(e));
+                        ("any_fn", call("multi_role_auth_action", (a(*caller),).into_val(e)))
+                    }
+                    Guarded::HasAny => {
+                        one(*signer, "multi_role_action", (a(*caller),).into_val(e));
+                        ("has_any_fn", call("multi_role_action", (a(*caller),).into_val(e)))
+                    }
+                },
                 Step::Call { which, caller, signer } => match which {
                     Guarded::Admin => {
                         one(*signer, "admin_fn", ().into_val(e));
@@ -262,7 +310,7 @@ impl Check for Access {
                     }
                 },
             };
-            let exp = m.apply(s);
+            let exp = m.apply_for(s, cfg.example);
             st.tx(kind, got);
             if got != exp {
                 let check = match (kind, got) {
@@ -328,7 +376,7 @@ impl Check for Access {
             if ex != existing || c.get_existing_roles().len() as usize != existing.len() {
                 return Err(violation("roles.existing_eq_nonempty", kind, i, format!("existing roles {ex:?}, model {existing:?}")));
             }
-            st.state(&(m.members.clone(), m.role_admin.clone(), m.admin));
+            st.state(&(cfg.example, m.members.clone(), m.role_admin.clone(), m.admin));
         }
         Ok(())
     }
